@@ -104,9 +104,24 @@ def _build(node, H, salt, eolstr, strip_meta, late_meta, group, index):
     if late_meta and not strip_meta:
         # gamma option: metadata nodes arrive after construction, through the child list itself
         t = H.Tag(name, {"i": str(i)}, *[x for x, c in zip(kids, node["c"]) if c["k"] != "M"], _add_ws=(k in ("B", "V")))
+        last_nonmeta = max([p_ for p_, c in enumerate(node["c"]) if c["k"] != "M"], default=-1)
         for pos, (x, c) in enumerate(zip(kids, node["c"])):
             if c["k"] == "M":
-                [t.children.insert, t.insert][(i + pos) % 2](pos, x)
+                how_ = (i + pos) % 4
+                if how_ == 2:
+                    t.insert(pos, H.TagList(x))                    # grouped metadata: spliced like any nested list
+                elif how_ == 3 and pos > last_nonmeta:
+                    t.children += [H.TagList(x), None]             # += normalises too
+                else:
+                    [t.children.insert, t.insert][how_ % 2](pos, x)
+        return t
+    if (i + salt) % 5 == 0 and not strip_meta:
+        # gamma option: the children arrive as ONE TagList that is also handed to a second tag, to which more is added
+        shared_ = H.TagList(*kids)
+        t = H.Tag(name, {"i": str(i)}, shared_, _add_ws=(k in ("B", "V")))
+        twin = H.Tag("section", shared_)
+        twin.append(H.tags.ul(H.tags.li("only in the twin")), "and text")
+        shared_.append("only in the caller's list")
         return t
     return H.Tag(name, {"i": str(i)}, *kids, _add_ws=(k in ("B", "V")))
 
@@ -360,6 +375,16 @@ class _LayoutBase(Prop):
             sys.displayhook = saved_hook
         if group:
             obj, obj0 = obj.tagify(), obj0.tagify()
+        if salt % 16 == 8 and not g.get("mut"):
+            # a copy used in place of the original
+            import copy as _copy
+            obj = _copy.deepcopy(obj)
+        elif salt % 16 == 0 and not g.get("mut"):
+            import pickle
+            try:
+                obj = pickle.loads(pickle.dumps(obj))
+            except Exception:  # noqa: test objects holding lambdas cannot be pickled
+                pass
         if g.get("mut"):
             # the same objects used again: render, change something through the public API, render again - what is
             # judged is the LAST rendering, against the tree as it is then (and against a fresh tree without metadata)
